@@ -3,6 +3,8 @@ use anyhow::{Result, bail};
 use serde_json::Value;
 
 pub mod c07;
+pub mod c31;
+pub mod c32;
 pub mod ll;
 pub mod llrun;
 pub mod lrrun;
@@ -16,6 +18,8 @@ pub fn replay_fn(kind: &str) -> Result<fn(&Value) -> Outcome> {
         "c06" => ll::replay_c06,
         "llrun" => llrun::replay,
         "c07" => c07::replay,
+        "c31" => c31::replay,
+        "c32" => c32::replay,
         "lrrun" => lrrun::replay,
         "xform" => xform::replay,
         _ => bail!("unknown replay kind {kind}"),
